@@ -324,6 +324,15 @@ type picture struct {
 	dec, grp, minus  string
 	percent, permille string
 	options          O
+	zero             rune // the zero-digit option (0 = default)
+}
+
+// z returns n copies of the picture's mandatory digit.
+func (p *picture) z(n int) string {
+	if p.zero == 0 {
+		return strings.Repeat("0", n)
+	}
+	return strings.Repeat(string(p.zero), n)
 }
 
 func (p *picture) sub(prefix, suffix string) string {
@@ -335,7 +344,7 @@ func (p *picture) sub(prefix, suffix string) string {
 		if i < p.intOpt {
 			sb.WriteString("#")
 		} else {
-			sb.WriteString("0")
+			sb.WriteString(p.z(1))
 		}
 		for _, s := range p.intSeps {
 			if s == posFromRight-1 && posFromRight-1 > 0 {
@@ -348,7 +357,7 @@ func (p *picture) sub(prefix, suffix string) string {
 		m := p.fracMand + p.fracOpt
 		for i := 0; i < m; i++ {
 			if i < p.fracMand {
-				sb.WriteString("0")
+				sb.WriteString(p.z(1))
 			} else {
 				sb.WriteString("#")
 			}
@@ -360,7 +369,7 @@ func (p *picture) sub(prefix, suffix string) string {
 		}
 	}
 	if p.expDigits > 0 {
-		sb.WriteString("e" + strings.Repeat("0", p.expDigits))
+		sb.WriteString("e" + p.z(p.expDigits))
 	}
 	sb.WriteString(suffix)
 	return sb.String()
@@ -388,6 +397,14 @@ func genPicture(r *prng.R) *picture {
 	} else if r.Intn(8) == 0 {
 		p.minus = r.Pick("_", "−", "~", "m")
 		p.options = O{"minus-sign": p.minus}
+	}
+	if r.Intn(8) == 0 {
+		// digits of another family (of one, three and four bytes in UTF-8)
+		p.zero = []rune{0x660, 0x966, 0xFF10, 0x1D7CE}[r.Intn(4)]
+		if p.options == nil {
+			p.options = O{}
+		}
+		p.options["zero-digit"] = string(p.zero)
 	}
 	p.intOpt, p.intMand = r.Intn(4), r.Intn(4)
 	p.hasPoint = r.Intn(3) > 0
@@ -479,6 +496,21 @@ func gcd(a, b int) int {
 
 // checkFormatted parses the output back and compares it with x.
 func (p *picture) checkFormatted(x float64, out string) string {
+	if p.zero != 0 {
+		// every digit of the output belongs to the family of the zero-digit
+		var sb strings.Builder
+		for _, c := range out {
+			switch {
+			case c >= '0' && c <= '9':
+				return fmt.Sprintf("ASCII digit %q in the output although the zero-digit is %q", string(c), string(p.zero))
+			case c >= p.zero && c <= p.zero+9:
+				sb.WriteRune('0' + c - p.zero)
+			default:
+				sb.WriteRune(c)
+			}
+		}
+		out = sb.String()
+	}
 	neg := x < 0
 	pre, suf := p.prefix, p.suffix
 	if neg {
